@@ -4,4 +4,5 @@ pub mod hosts;
 pub mod oracle;
 pub mod spec;
 pub mod sym;
+pub mod symgraph;
 pub mod topo;
